@@ -411,6 +411,9 @@ func bufferClass(fn *ssa.Function, v ssa.Value) string {
 		}
 		break
 	}
+	if ex, ok := root.(*ssa.Extract); ok {
+		root = ex.Tuple
+	}
 	if call, ok := root.(*ssa.Call); ok {
 		n := calleeNameSSA(&call.Call)
 		if strings.HasSuffix(n, ".Sum") {
@@ -454,6 +457,14 @@ func bufferClass(fn *ssa.Function, v ssa.Value) string {
 					class = "salt"
 				case n == "packKeyWire" && i == 1:
 					class = "keywire"
+				case n == "packSigWire" && i == 1:
+					class = "sigwire"
+				case n == "packTsigWire" && i == 1:
+					class = "tsigwire"
+				case n == "packMacWire" && i == 1:
+					class = "macwire"
+				case n == "packTimerWire" && i == 1:
+					class = "timerwire"
 				}
 			}
 		}
